@@ -21,43 +21,14 @@ def spellRest : List Str → List Str → Str
   | seg :: more, w :: ws => w ++ seg ++ spellRest more ws
   | _, _ => []
 
-def NoNl (w : Str) : Prop := '\n' ∉ w
-
-theorem nlFree_le_length (s : Str) : nlFree s ≤ s.length := by
-  induction s with
-  | nil => simp [nlFree]
-  | cons c cs ih => simp only [nlFree]; split <;> simp <;> omega
-
-theorem take_noNl_of_le (s : Str) (j : Nat) (h : j ≤ nlFree s) : NoNl (s.take j) := by
-  induction s generalizing j with
-  | nil => simp [NoNl]
-  | cons c cs ih =>
-    cases j with
-    | zero => simp [NoNl]
-    | succ j =>
-      simp only [nlFree] at h
-      split at h
-      · omega
-      · rename_i hc
-        have := ih j (by omega)
-        simp only [NoNl, List.take_succ_cons, List.mem_cons, not_or] at *
-        exact ⟨fun e => hc e.symm, this⟩
-
-theorem le_nlFree_of_noNl (w t : Str) (h : NoNl w) : w.length ≤ nlFree (w ++ t) := by
-  induction w with
-  | nil => simp
-  | cons c cs ih =>
-    simp only [NoNl, List.mem_cons, not_or] at h
-    have hc : c ≠ '\n' := fun e => h.1 e.symm
-    simp only [List.cons_append, nlFree, hc, if_false, List.length_cons]
-    have := ih h.2
-    omega
-
-/-- soundness of the inner search -/
+/-- soundness of the inner search, with maximality: the group length found is the LARGEST
+`j ≤ n` for which the segment follows and the continuation succeeds -/
 theorem tryK_sound (seg : Str) (k : Str → Option (List Str)) (s : Str) (n : Nat) (r : List Str)
     (h : tryK seg k s n = some r) :
     ∃ j, j ≤ n ∧ ∃ ws, r = s.take j :: ws ∧ isPrefix seg (s.drop j) = true ∧
-      k ((s.drop j).drop seg.length) = some ws := by
+      k ((s.drop j).drop seg.length) = some ws ∧
+      ∀ j2, j < j2 → j2 ≤ n →
+        ¬ (isPrefix seg (s.drop j2) = true ∧ (k ((s.drop j2).drop seg.length)).isSome = true) := by
   induction n with
   | zero =>
     simp only [tryK] at h
@@ -65,7 +36,7 @@ theorem tryK_sound (seg : Str) (k : Str → Option (List Str)) (s : Str) (n : Na
     · rename_i hp
       split at h
       · rename_i ws hk
-        refine ⟨0, Nat.le_refl _, ws, ?_, by simpa using hp, by simpa using hk⟩
+        refine ⟨0, Nat.le_refl _, ws, ?_, by simpa using hp, by simpa using hk, by intro j2 h1 h2; omega⟩
         simpa using (Option.some.inj h).symm
       · cases h
     · cases h
@@ -75,11 +46,21 @@ theorem tryK_sound (seg : Str) (k : Str → Option (List Str)) (s : Str) (n : Na
     · rename_i hp
       split at h
       · rename_i ws hk
-        exact ⟨n+1, Nat.le_refl _, ws, (Option.some.inj h).symm, hp, hk⟩
-      · obtain ⟨j, hj, rest⟩ := ih h
-        exact ⟨j, by omega, rest⟩
-    · obtain ⟨j, hj, rest⟩ := ih h
-      exact ⟨j, by omega, rest⟩
+        exact ⟨n+1, Nat.le_refl _, ws, (Option.some.inj h).symm, hp, hk, by intro j2 h1 h2; omega⟩
+      · rename_i hk
+        obtain ⟨j, hj, ws, h1, h2, h3, h4⟩ := ih h
+        refine ⟨j, by omega, ws, h1, h2, h3, ?_⟩
+        intro j2 hlt hle
+        by_cases he : j2 = n + 1
+        · subst he; rw [hk]; simp
+        · exact h4 j2 hlt (by omega)
+    · rename_i hp
+      obtain ⟨j, hj, ws, h1, h2, h3, h4⟩ := ih h
+      refine ⟨j, by omega, ws, h1, h2, h3, ?_⟩
+      intro j2 hlt hle
+      by_cases he : j2 = n + 1
+      · subst he; intro hc; exact hp hc.1
+      · exact h4 j2 hlt (by omega)
 
 /-- completeness + greediness of the inner search: if some `j ≤ n` works, the search
 succeeds with a first group at least as long as `j`. -/
@@ -122,7 +103,7 @@ theorem tryK_complete (seg : Str) (k : Str → Option (List Str)) (s : Str) (n j
 
 theorem matchRest_sound (segs : List Str) (s : Str) (ws : List Str)
     (h : matchRest segs s = some ws) :
-    ws.length = segs.length ∧ s = spellRest segs ws ∧ ∀ w ∈ ws, NoNl w := by
+    ws.length = segs.length ∧ s = spellRest segs ws := by
   induction segs generalizing s ws with
   | nil =>
     simp only [matchRest] at h
@@ -131,21 +112,16 @@ theorem matchRest_sound (segs : List Str) (s : Str) (ws : List Str)
     · cases h
   | cons seg more ih =>
     simp only [matchRest] at h
-    obtain ⟨j, hj, ws', rfl, hp, hk⟩ := tryK_sound _ _ _ _ _ h
-    obtain ⟨hl, hs, hn⟩ := ih _ _ hk
+    obtain ⟨j, hj, ws', rfl, hp, hk, _⟩ := tryK_sound _ _ _ _ _ h
+    obtain ⟨hl, hs⟩ := ih _ _ hk
     obtain ⟨t, ht⟩ := (isPrefix_iff _ _).mp hp
-    refine ⟨by simp [hl], ?_, ?_⟩
-    · simp only [spellRest]
-      rw [ht, drop_of_prefix] at hs
-      rw [← hs, List.append_assoc, ← ht, List.take_append_drop]
-    · intro w hw
-      simp only [List.mem_cons] at hw
-      rcases hw with rfl | hw
-      · exact take_noNl_of_le _ _ hj
-      · exact hn w hw
+    refine ⟨by simp [hl], ?_⟩
+    simp only [spellRest]
+    rw [ht, drop_of_prefix] at hs
+    rw [← hs, List.append_assoc, ← ht, List.take_append_drop]
 
-theorem matchRest_complete (segs ws : List Str) (hl : ws.length = segs.length)
-    (hn : ∀ w ∈ ws, NoNl w) : (matchRest segs (spellRest segs ws)).isSome = true := by
+theorem matchRest_complete (segs ws : List Str) (hl : ws.length = segs.length) :
+    (matchRest segs (spellRest segs ws)).isSome = true := by
   induction segs generalizing ws with
   | nil => cases ws <;> simp_all [matchRest, spellRest]
   | cons seg more ih =>
@@ -153,7 +129,7 @@ theorem matchRest_complete (segs ws : List Str) (hl : ws.length = segs.length)
     | nil => simp at hl
     | cons w ws =>
       simp only [List.length_cons, Nat.add_right_cancel_iff] at hl
-      have hrec := ih ws hl (fun x hx => hn x (List.mem_cons_of_mem _ hx))
+      have hrec := ih ws hl
       simp only [matchRest, spellRest]
       have hdrop : (w ++ seg ++ spellRest more ws).drop w.length = seg ++ spellRest more ws := by
         simp [List.append_assoc]
@@ -161,30 +137,69 @@ theorem matchRest_complete (segs ws : List Str) (hl : ws.length = segs.length)
         rw [hdrop]; exact (isPrefix_iff _ _).mpr ⟨_, rfl⟩
       have hk : (matchRest more (((w ++ seg ++ spellRest more ws).drop w.length).drop seg.length)).isSome = true := by
         rw [hdrop, drop_of_prefix]; exact hrec
-      have hj : w.length ≤ nlFree (w ++ seg ++ spellRest more ws) := by
-        rw [List.append_assoc]; exact le_nlFree_of_noNl _ _ (hn w (List.mem_cons_self))
+      have hj : w.length ≤ (w ++ seg ++ spellRest more ws).length := by
+        simp only [List.length_append]; omega
       obtain ⟨j', _, _, ws', h3, _⟩ := tryK_complete seg (matchRest more) _ _ _ hj hp hk
       rw [h3]; rfl
 
-/-- greediness: the first wildcard value is at least as long as in any other decomposition -/
+/-- lexicographic order on the LENGTHS of the wildcard values: `lexLenLe ws' ws` says that at
+the first position where the two lists differ in length, `ws` has the longer value -/
+def lexLenLe : List Str → List Str → Prop
+  | w' :: r', w :: r => w'.length < w.length ∨ (w'.length = w.length ∧ lexLenLe r' r)
+  | _, _ => True
+
+/-- **greediness of ALL groups**: what the matcher returns is, among all ways of spelling
+the name from the segments, the one whose first value is longest, then — the first value
+being fixed — whose second value is longest, and so on (leftmost-longest, Go's `(.*)`). -/
+theorem matchRest_greedy_all (segs : List Str) (s : Str) (ws : List Str)
+    (h : matchRest segs s = some ws) (ws' : List Str) (hl : ws'.length = segs.length)
+    (hs : s = spellRest segs ws') : lexLenLe ws' ws := by
+  induction segs generalizing s ws ws' with
+  | nil => cases ws' <;> first | trivial | (unfold lexLenLe; trivial)
+  | cons seg more ih =>
+    cases ws' with
+    | nil => simp at hl
+    | cons w' r' =>
+      simp only [List.length_cons, Nat.add_right_cancel_iff] at hl
+      simp only [matchRest] at h
+      obtain ⟨j, hj, wsr, rfl, hp, hk, hmax⟩ := tryK_sound _ _ _ _ _ h
+      simp only [spellRest] at hs
+      have hdrop : s.drop w'.length = seg ++ spellRest more r' := by
+        rw [hs]; simp [List.append_assoc]
+      have hw'len : w'.length ≤ s.length := by
+        rw [hs]; simp only [List.length_append]; omega
+      have hp' : isPrefix seg (s.drop w'.length) = true := by
+        rw [hdrop]; exact (isPrefix_iff _ _).mpr ⟨_, rfl⟩
+      have hk' : (matchRest more ((s.drop w'.length).drop seg.length)).isSome = true := by
+        rw [hdrop, drop_of_prefix]; exact matchRest_complete more r' hl
+      have hle : w'.length ≤ j := by
+        rcases Nat.lt_or_ge j w'.length with hlt | hge
+        · exact absurd ⟨hp', hk'⟩ (hmax _ hlt hw'len)
+        · exact hge
+      have htake : (s.take j).length = j := by simp [List.length_take]; omega
+      simp only [lexLenLe, htake]
+      rcases Nat.lt_or_ge w'.length j with hlt | hge
+      · exact Or.inl hlt
+      · have hej : w'.length = j := by omega
+        refine Or.inr ⟨hej, ?_⟩
+        subst hej
+        rw [hdrop, drop_of_prefix] at hk
+        exact ih _ _ hk r' hl rfl
+
+/-- corollary: the first wildcard value is at least as long as in any other decomposition -/
 theorem matchRest_greedy (seg : Str) (more : List Str) (w : Str) (ws : List Str)
-    (hl : ws.length = more.length) (hn : ∀ x ∈ (w :: ws), NoNl x) :
+    (hl : ws.length = more.length) :
     ∃ w' ws', matchRest (seg :: more) (spellRest (seg :: more) (w :: ws)) = some (w' :: ws') ∧
       w.length ≤ w'.length := by
-  have hrec := matchRest_complete more ws hl (fun x hx => hn x (List.mem_cons_of_mem _ hx))
-  simp only [matchRest, spellRest]
-  have hdrop : (w ++ seg ++ spellRest more ws).drop w.length = seg ++ spellRest more ws := by
-    simp [List.append_assoc]
-  have hp : isPrefix seg ((w ++ seg ++ spellRest more ws).drop w.length) = true := by
-    rw [hdrop]; exact (isPrefix_iff _ _).mpr ⟨_, rfl⟩
-  have hk : (matchRest more (((w ++ seg ++ spellRest more ws).drop w.length).drop seg.length)).isSome = true := by
-    rw [hdrop, drop_of_prefix]; exact hrec
-  have hj : w.length ≤ nlFree (w ++ seg ++ spellRest more ws) := by
-    rw [List.append_assoc]; exact le_nlFree_of_noNl _ _ (hn w (List.mem_cons_self))
-  obtain ⟨j', h1, h2, ws', h3, _⟩ := tryK_complete seg (matchRest more) _ _ _ hj hp hk
-  refine ⟨_, ws', h3, ?_⟩
-  have := nlFree_le_length (w ++ seg ++ spellRest more ws)
-  simp only [List.length_take]
-  omega
+  have hc := matchRest_complete (seg :: more) (w :: ws) (by simp [hl])
+  obtain ⟨r, hr⟩ := Option.isSome_iff_exists.mp hc
+  have hlen := (matchRest_sound _ _ _ hr).1
+  cases r with
+  | nil => simp at hlen
+  | cons w' ws' =>
+    refine ⟨w', ws', hr, ?_⟩
+    have := matchRest_greedy_all _ _ _ hr (w :: ws) (by simp [hl]) rfl
+    simp only [lexLenLe] at this
+    omega
 
 end TaskModel.Resolve
